@@ -31,6 +31,8 @@ def plan(tier, seed):
             specs.append({"name": "frozen-%dD-%d" % (nd, b), "kind": "frozen", "nd": nd, "b": b, "n": n // nb, "timeout": 1500})
             specs.append({"name": "isolated-%dD-%d" % (nd, b), "kind": "isolated", "nd": nd, "b": b, "n": max(2, n // (2 * nb)), "timeout": 1500})
     specs.append({"name": "reject", "kind": "reject", "timeout": 600})
+    for b in range(1 if q else 4):
+        specs.append({"name": "ambient-%d" % b, "kind": "ambient", "b": b, "n": 8 if q else 16, "timeout": 2400})
     specs.append({"name": "onepop", "kind": "onepop", "n": 20 if q else 150, "timeout": 900})
     if not q:
         for nd in range(2, 6):
@@ -47,8 +49,11 @@ def required(tier):
 class RunLog:
     """Per-run subscriber: evaluates the tap invariants online and keeps the mass budget."""
 
-    def __init__(self, rec, site, tags):
+    def __init__(self, rec, site, tags, within_one_integration=True):
         self.rec, self.site, self.tags = rec, site, tags
+        # between two integrations a model legitimately changes the density (splits, pulses): the "nothing changes
+        # between observed calls" invariant only applies inside a single integrator call
+        self.within = within_one_integration
         self.last_after = None
         self.influx = 0.0
         self.outflow = 0.0
@@ -60,7 +65,7 @@ class RunLog:
         rec, site, tags = self.rec, self.site, self.tags
         self.nev += 1
         before = ev.get("before")
-        if before is not None and self.last_after is not None and before.shape == self.last_after.shape:
+        if self.within and before is not None and self.last_after is not None and before.shape == self.last_after.shape:
             rec.check("no-unobserved-change", np.array_equal(before, self.last_after), site=site, tags=tags,
                       observed="density changed between two observed calls (event %d, %s)" % (self.nev, ev["name"]))
         if ev["kind"] == "inject":
@@ -181,6 +186,8 @@ def run(spec, rec):
         run_reject(spec, rec, Integration)
     elif kind == "onepop":
         run_onepop(spec, rec, Integration, tap)
+    elif kind == "ambient":
+        run_ambient(spec, rec, dadi, tap)
     rec.note("kernel_calls", tap.counts)
     tap.uninstall()
 
@@ -410,3 +417,37 @@ def run_onepop(spec, rec, Integration, tap):
         ok, fz = rec.noraise("driver-returns", lambda: Integration.one_pop(phi0.copy(), xx, T, nu=nu, frozen=True), site="Integration.one_pop", tags=tags)
         if ok:
             rec.check("all-frozen-identity", np.array_equal(fz, phi0), site="Integration.one_pop", tags=tags)
+
+
+def run_ambient(spec, rec, dadi, tap):
+    """library models (constant and time-dependent drivers, selection, migration, admixture) under the tap: every sweep
+    and injection they perform is checked for conservation"""
+    import dadi.DFE
+    from vf.props.c15 import all_models, draw_value, model_ndim
+    models = all_models(dadi)
+    keys = sorted(models)
+    for ci in range(spec["n"]):
+        rng = rng_for(spec["seed"], "C04amb", spec["b"], ci)
+        key = keys[int(rng.integers(len(keys)))]
+        f = models[key]
+        nd = model_ndim(key, f)
+        if nd is None or "inbreeding" in key:
+            continue
+        p = []
+        for nm in f.__param_names__:
+            v = draw_value(rng, nm)
+            if nm.startswith("nu"):
+                v = float(np.exp(rng.uniform(np.log(0.2), np.log(5))))
+            if nm.startswith("T"):
+                v = float(rng.uniform(0.02, 0.2))
+            p.append(v)
+        pts = {1: 30, 2: 16, 3: 10}[nd]
+        if not rec.case("amb-%d-%d" % (spec["b"], ci), {"model": key, "params": p, "pts": pts}, nontrivial=nd >= 2):
+            continue
+        tags = {"model": key}
+        log = RunLog(rec, key, tags, within_one_integration=False)
+        tap.subs[:] = [log]
+        tap.grids = None
+        rec.noraise("driver-returns", lambda: f(p, [4] * nd, pts), site=key, tags=tags)
+        tap.subs[:] = []
+        rec.hit("ambient-events", log.nev)
